@@ -49,6 +49,12 @@ def run(ctx):
     # the chunk loop under Ctrl-C: no pass is started after the cancellation (as found - finding F18 - the model variant fails)
     ctx.tlc_mc("MC_ScanRun", "MC_ScanRun", workers=8, timeout=900)
     ctx.tlc_mc("MC_ScanRun", "MC_ScanRun_passAfterCancel", workers=2, timeout=300, expect_violation="NoPassAfterCancel")
+    # closing the packet source of a finished pass while its receiver is inside a read (finding F17): the repair needs the lock, the copy
+    # and the poll timeout - each variant without one of them fails its property
+    ctx.tlc_mc("SourceLifetime", "MC_SourceLifetime_fixed", workers=2, timeout=300)
+    ctx.tlc_mc("SourceLifetime", "MC_SourceLifetime_asfound", workers=2, timeout=300, expect_violation="NoFault")
+    ctx.tlc_mc("SourceLifetime", "MC_SourceLifetime_zerocopy", workers=2, timeout=300, expect_violation="NoFault")
+    ctx.tlc_mc("SourceLifetime", "MC_SourceLifetime_nopolltimeout", workers=2, timeout=300, expect_violation="CloseTerminates")
     n4, rej = wt.run_wire(ctx, label="c12w", focus="clean")
     wt.report(ctx, "C12", rej)
     # runs with a Ctrl-C as event sequences against ScanRun: Sigint -> no further pass, at most the probes in flight, exit within the bound
